@@ -311,6 +311,43 @@ def run_property(prop, tier, seed):
             if it:
                 by_type.setdefault(it, set()).add(h)
         groups = [(g, 1000) for g in by_type.values() if len(g) > 1]
+        # ... and, first of all groups, the helpers that the functions holding the findings call (directly or through one another):
+        # what "extract two helpers from this function" undoes, without dissolving the function itself into ITS caller
+        try:
+            import mirlib as _ml
+            holders = set()
+            for i in res_a.instances:
+                if i['verdict'] == 'pass' or not i.get('loc') or ':' not in i['loc']:
+                    continue
+                fl, ln = i['loc'].rsplit(':', 1)
+                if not ln.isdigit():
+                    continue
+                for bd in facts_a.bodies.values():
+                    if bd.file == fl and bd.lo <= int(ln) <= bd.hi and bd.kind != 'closure':
+                        holders.add(bd.path)
+            sset = set(singles)
+            callees, todo_ = set(), list(holders)
+            seen_ = set()
+            while todo_:
+                hp = todo_.pop()
+                if hp in seen_ or hp not in facts_a.bodies:
+                    continue
+                seen_.add(hp)
+                bd = facts_a.bodies[hp]
+                for bb_ in bd.reachable():
+                    t_ = bd.term(bb_)
+                    if t_['k'] == 'call':
+                        c_ = _ml.callee_of(t_)
+                        cp_ = (c_.get('resolved') or c_['path']) if c_ else None
+                        if cp_ in sset and cp_ not in holders:
+                            callees.add(cp_)
+                            todo_.append(cp_)
+                for cb_ in facts_a.closures_of(bd):
+                    todo_.append(cb_.path)
+            if len(callees) > 1:
+                groups = [(callees, 1000)] + groups
+        except Exception:      # noqa
+            pass
         for only, max_sites in [({h}, 1000) for h in singles] + groups + [(None, 1), (None, 3), (None, 1000)]:
             if not any(i['verdict'] != 'pass' and (prop, i['key']) not in known0 for i in res_a.instances):
                 break
